@@ -1,8 +1,9 @@
 import Fabio.Driver.Proto
 import Fabio.Model.C13
 import Fabio.Model.C13Glue
+import Fabio.Model.C13Table
 namespace Fabio.Driver.C13
-open Lean Fabio.Driver Fabio.Model.C13
+open Lean Fabio.Driver Fabio.Model Fabio.Model.C13
 
 /-! JSON glue: Go strings arrive as JSON strings (valid UTF-8) or, where the bytes may be arbitrary, hex. -/
 
@@ -188,6 +189,11 @@ def candsOf (j : Json) : Except String (List (Option RTarget)) :=
       | o => do let t ← targetOf o; pure (some t))
   | _ => pure []
 
+def strList' (j : Json) : List Str :=
+  match j with
+  | .arr a => a.toList.filterMap (fun x => match x with | .str s => some (bytesOf s) | _ => none)
+  | _ => []
+
 def is3xx (s : Int) : Bool := 300 ≤ s && s ≤ 399
 
 /-- the redirect counter (`p.Stats.RedirectCounter.With("code", strconv.Itoa(code)).Add(1)`): one increment labelled
@@ -200,6 +206,21 @@ def countedOK (a : Json) (redirectCode : Option Int) : Bool :=
     | some c => n == 1 && getS a "countcode" == bytesOf (toString c)
     | none => n == 0
 
+/-- the dumped table of a case -/
+def tableOf (j : Json) : Except String C13Table.DTable :=
+  match j with
+  | .arr a => a.toList.mapM (fun kv => do
+      let rs ← match getO kv "routes" with
+        | .arr rs => rs.toList.filterMapM (fun r => do
+            if getO r "t" == Json.null then pure none else
+            let t ← targetOf (getO r "t")
+            let p ← getHex r "pathhex"
+            let up := getI r "up"
+            pure (some ({ path := p, tgt := t, up := if up < 0 then none else some up.toNat, denied := getB r "denied" } : C13Table.DRoute)))
+        | _ => pure []
+      pure (getS kv "key", rs))
+  | _ => pure []
+
 def httpH : Handler := fun inp impl => do
   let err := (impl.getObjValAs? String "err").toOption.getD ""
   if err != "" then
@@ -208,90 +229,120 @@ def httpH : Handler := fun inp impl => do
   let target := getS inp "target"
   let tls := getB inp "tls"
   let xfp := getS inp "xfp"
+  let noglob := getB inp "noglob"
   let status := getI impl "status"
   let hits := getI impl "hits"
+  let hitsBy : List Int := match getO impl "hitsby" with
+    | .arr a => a.toList.map (fun x => (x.getInt?).toOption.getD 0)
+    | _ => []
   let iloc := getS impl "location"
-  let cands ← candsOf (getO impl "cands")
+  let icands ← candsOf (getO impl "cands")
+  let ihosts := strList' (getO impl "hosts")
+  let tbl ← tableOf (getO impl "table")
+  let allRoutes := tbl.flatMap (·.2)
   -- templates outside the modelled shapes (no scheme, no host, user info): nothing is claimed
-  let oddCand := match getO impl "cands" with
-    | .arr a => a.toList.any (fun x => x != Json.null && getI x "code" != 0 &&
-        (getB x "odd" || (match targetOf x with | .ok t => (tmplParts t).1.isEmpty | .error _ => true)))
+  let oddT (x : Json) : Bool := x != Json.null && getI x "code" != 0 &&
+        (getB x "odd" || (match targetOf x with | .ok t => (tmplParts t).1.isEmpty | .error _ => true))
+  let oddCand := match getO impl "table" with
+    | .arr a => a.toList.any (fun kv => match getO kv "routes" with
+        | .arr rs => rs.toList.any (fun r => oddT (getO r "t"))
+        | _ => false)
     | _ => false
   if oddCand || (getS inp "host").isEmpty then
     return ({ model := Json.null, agree := true, spec := true, nontrivial := false, tag := "odd-template-or-empty-host" } : Verdict).toJson
-  let ups : List Bool := match getO impl "upstream" with
-    | .arr a => a.toList.map (fun x => x == Json.bool true)
-    | _ => []
-  let mreq := if targetOK target then parseTarget host target else none
-  match mreq with
+  -- host keys outside the glob fragment the model states (classes, alternatives, escapes): not judged here (C03)
+  if !C13Table.keysInFragment tbl || !C03.inFragment (C13Table.chars host) then
+    return ({ model := Json.null, agree := true, spec := true, nontrivial := false, tag := "host-pattern-outside-fragment" } : Verdict).toJson
+  match (if targetOK target then C13Table.mkReq host target xfp tls else none) with
   | none =>
     return ({ model := Json.mkObj [("status", 400)], agree := status == 400, spec := hits == 0, nontrivial := false, tag := "bad-request" } : Verdict).toJson
-  | some req =>
+  | some q =>
+    let req := q.url
     if status == 400 then
       return ({ model := Json.null, agree := true, spec := hits == 0, nontrivial := false, tag := "server-400" } : Verdict).toJson
     let scheme := reqScheme xfp tls
-    let res := lookup scheme req cands
+    -- the model: C03's host list and per-host lookup on the dumped table, C13's skip, ServeHTTP
+    let cfg := C13Table.cfgOf noglob
+    let T := C13Table.toTable tbl
+    let mhosts := C03.hostList cfg T q.r03
+    let mcands := C13Table.cands cfg (C13Table.viewOf tbl) T q
+    let sel := C13Table.selectRoute tbl noglob q
+    let served := C13Table.serveTable tbl noglob q (getS inp "upgrade") (getS inp "accept")
+    -- … against the real host matching / per-host lookup (hook)
+    let tableAgree := mhosts == ihosts.map C13Table.chars && mcands == icands
     let upgrade := getS inp "upgrade"
     let accept := getS inp "accept"
-    let deniedL : List Bool := match getO impl "denied" with
-      | .arr a => a.toList.map (fun x => x == Json.bool true)
-      | _ => []
-    -- the verdict of the access gate for the selected target (oracle from the real AccessDeniedHTTP); no auth schemes
-    let idxOf (t : RTarget) : Nat := (cands.takeWhile (fun c => c != some t)).length
-    let denied := match res with | some (t, _) => deniedL.getD (idxOf t) false | none => false
     let hdrTag := if equalFold upgrade (lit "websocket") then "+ws" else if accept == lit "text/event-stream" then "+sse"
                   else if upgrade.isEmpty && accept.isEmpty then "" else "+hdr"
+    let globTag := if noglob then "+noglob" else ""
     -- specification on the implementation's answer
     let own (l : Loc) : Bool := l.scheme == scheme && l.host == hexEscapeNonASCII (escape .host host) &&
         (unescape l.path == some req.path)
-    let redirectCands := cands.filterMap (fun c => match c with | some t => if t.code ≠ 0 then some t else none | none => none)
+    let locOK (t : RTarget) : Bool := t.code == status && locationSpec t host (escapedPath req) (rawPathOf target) req.rawQuery iloc
+    -- through the websocket handler the exchange is a raw pipe: attributed to a route only by the contact
+    let explains (r : C13Table.DRoute) : Bool :=
+      if is3xx status then r.tgt.code ≠ 0 && locOK r.tgt
+      else if status == 403 && hits == 0 then r.denied
+      else r.tgt.code == 0 && !r.denied && (match r.up with
+        | some k => hits == 1 && hitsBy.getD k 0 == 1
+        | none => hits == 0)
+    let obs : C13Table.Observed := { noRoute := status == 404 && hits == 0 && !getB impl "hasloc", explains := explains }
+    let judged := C13Table.specAnswered tbl noglob q host obs
     let specRedirect := if is3xx status then
-        hits == 0 && redirectCands.any (fun t => t.code == status && locationSpec t host (escapedPath req) (rawPathOf target) req.rawQuery iloc) &&
+        hits == 0 && allRoutes.any (fun r => r.tgt.code ≠ 0 && locOK r.tgt) &&
         (match parseLoc iloc with | some l => !(own l) | none => false)
       else true
+    -- no-response cases (status -1) cannot be attributed
+    let specTable := status == -1 || judged == .ok
+    let specAll := specRedirect && specTable
+    let failTag := if !specTable then (if judged == .nextHostNotTried then "next-host-not-tried" else "answer-from-no-matching-route") else ""
+    let skippedBefore (r : C13Table.DRoute) : Bool :=
+      (mcands.takeWhile (fun c => c != some r.tgt)).any (fun c => match c with | some c => c.code ≠ 0 | none => false)
+    let modelHosts := Json.arr (mhosts.map (fun h => Json.str (String.ofList h))).toArray
     -- the connection was closed without a response: the handler panicked — unless the request went down the
     -- websocket path to a plain target (a raw pipe to an upstream that may not exist: the connection is hijacked)
     let noResponse := status == -1
-    match res, serve res denied true upgrade accept with
-    | _, .upstream .websocket =>
-      return ({ model := Json.mkObj [("redirect", false), ("via", "websocket")], agree := !is3xx status && hits ≤ 1,
-                spec := specRedirect, nontrivial := false, tag := "proxy+ws" } : Verdict).toJson
-    | _, _ =>
+    match served with
+    | .upstream .websocket =>
+      return ({ model := Json.mkObj [("redirect", false), ("via", "websocket"), ("hosts", modelHosts)], agree := tableAgree && !is3xx status && hits ≤ 1,
+                spec := specRedirect && (noResponse || status != 200 || specTable), nontrivial := false,
+                tag := if specRedirect && !(noResponse || status != 200 || specTable) then failTag else "proxy+ws" } : Verdict).toJson
+    | _ =>
     if noResponse then
       return ({ model := Json.null, agree := false, spec := false, nontrivial := true, tag := "no-response" } : Verdict).toJson
-    match res, serve res denied true upgrade accept with
-    | some (t, _), .forbidden =>
+    match sel, served with
+    | some r, .forbidden =>
       -- the access gate stands in front of the redirect branch (as coded): 403, nothing contacted
-      return ({ model := Json.mkObj [("status", 403), ("hits", 0)], agree := status == 403 && hits == 0,
-                spec := specRedirect && hits == 0, nontrivial := t.code ≠ 0,
-                tag := (if t.code ≠ 0 then "denied-redirect" else "denied-proxy") ++ hdrTag } : Verdict).toJson
-    | some (t, some u), .redirect code loc =>
-      let skipped := (cands.takeWhile (fun c => c != some t)).any (fun c => match c with | some c => c.code ≠ 0 | none => false)
+      return ({ model := Json.mkObj [("status", 403), ("hits", 0), ("hosts", modelHosts)], agree := tableAgree && status == 403 && hits == 0,
+                spec := specAll && hits == 0, nontrivial := r.tgt.code ≠ 0,
+                tag := if !specTable then failTag else (if r.tgt.code ≠ 0 then "denied-redirect" else "denied-proxy") ++ hdrTag } : Verdict).toJson
+    | some r, .redirect code loc =>
+      let t := r.tgt
+      let skipped := skippedBefore r
       let ownLoc := match parseLoc loc with | some l => own l | none => false
-      let _ := u
       let cls := if findingClasses.contains (classTag t req) then classTag t req
         else if ownLoc then "self-redirect-answered" else classTag t req
-      let tag := if findingClasses.contains cls then cls else (if skipped then "skip-then-redirect-" else "redirect-") ++ cls ++ hdrTag
-      return ({ model := Json.mkObj [("status", code), ("location", showB loc), ("hits", 0)],
-                agree := status == code && iloc == loc && hits == 0, spec := specRedirect && is3xx status, nontrivial := true,
+      let tag := if findingClasses.contains cls then cls else if !specTable then failTag
+        else (if skipped then "skip-then-redirect" ++ globTag ++ "-" else "redirect-") ++ cls ++ hdrTag
+      return ({ model := Json.mkObj [("status", code), ("location", showB loc), ("hits", 0), ("hosts", modelHosts)],
+                agree := tableAgree && status == code && iloc == loc && hits == 0, spec := specAll && is3xx status, nontrivial := true,
                 tag := tag } : Verdict).toJson
-    | some (t, _), .upstream via =>
-      -- a plain route: proxied (the instrumented upstream answers 200) — or some other upstream of the pool
-      let idx := idxOf t
-      let isUp : Bool := ups.getD idx false
-      let skipped := (cands.take idx).any (fun c => match c with | some c => c.code ≠ 0 | none => false)
-      -- through the websocket handler the exchange is a raw pipe: only "no redirect, at most one contact" is compared
-      let _ := via
-      let agree := !is3xx status && (!isUp || (status == 200 && hits == 1))
-      return ({ model := Json.mkObj [("redirect", false), ("upstream", isUp)],
-                agree := agree, spec := specRedirect, nontrivial := skipped,
-                tag := (if skipped then "skip-then-proxy" else "proxy") ++ hdrTag } : Verdict).toJson
+    | some r, .upstream _ =>
+      -- a plain route: proxied — by the instrumented upstream of this very route (200, one hit there), or
+      -- to an address outside the harness (no hit)
+      let skipped := skippedBefore r
+      let agree := !is3xx status && (match r.up with
+        | some k => status == 200 && hits == 1 && hitsBy.getD k 0 == 1
+        | none => hits == 0)
+      return ({ model := Json.mkObj [("redirect", false), ("upstream", match r.up with | some k => Json.num k | none => Json.null), ("hosts", modelHosts)],
+                agree := tableAgree && agree, spec := specAll, nontrivial := skipped,
+                tag := if !specTable then failTag else (if skipped then "skip-then-proxy" else "proxy") ++ hdrTag ++ globTag } : Verdict).toJson
     | none, _ =>
-      let skipped := cands.any (fun c => match c with | some c => c.code ≠ 0 | none => false)
-      return ({ model := Json.mkObj [("status", 404)], agree := status == 404 && hits == 0, spec := specRedirect, nontrivial := skipped,
-                tag := if skipped then "skip-then-noroute" else "noroute" } : Verdict).toJson
+      let skipped := mcands.any (fun c => match c with | some c => c.code ≠ 0 | none => false)
+      return ({ model := Json.mkObj [("status", 404), ("hosts", modelHosts)], agree := tableAgree && status == 404 && hits == 0, spec := specAll, nontrivial := skipped,
+                tag := if !specTable then failTag else (if skipped then "skip-then-noroute" else "noroute") ++ globTag } : Verdict).toJson
     | _, _ =>
-      return ({ model := Json.null, agree := false, spec := specRedirect, nontrivial := false, tag := "model-unreachable" } : Verdict).toJson
+      return ({ model := Json.null, agree := false, spec := specAll, nontrivial := false, tag := "model-unreachable" } : Verdict).toJson
 
 /-! ### c13.concurrent -/
 
